@@ -282,7 +282,7 @@ def gen_ops(tier, rng):
     """Returns list of (line, lane).  lane 'wt' = well-typed (totality is demanded), 'x' = cross-typed / malformed (agreement only)."""
     g = Gen(rng)
     ops = []
-    scale = 1 if tier == 'quick' else 40
+    scale = 1 if tier == 'quick' else 150
 
     def add(line, lane):
         ops.append((line, lane))
